@@ -124,7 +124,8 @@ def strip_op(e):
 def run(ctx):
     ctx.rule = ("histories = TLC -simulate behaviours of StorageMC (depth 14, getters interleaved) + seeded random histories "
                 "(16 calls, all template fields, NaN/inf/denormal/1e300 values, nested JSON attrs, delete-then-recreate, "
-                "writes after finish, unknown/deleted ids) run on 9 backend configurations; every trace validated by TLC "
+                "writes after finish, unknown/deleted ids) + repeated overwrites of one key with values of every class "
+                "(finite, +-inf, NaN, denormal) run on 9 backend configurations; every trace validated by TLC "
                 "against StorageTrace; distinct = distinct (config, call sequence) pairs")
     r = tlc.require_model("StorageMC", "StorageMC_q" if ctx.quick else "StorageMC_t", must_cover=MC_ACTIONS, timeout=3000)
     ctx.model(r, "StorageMC exhaustive")
@@ -132,12 +133,13 @@ def run(ctx):
     n_tlc_fast, n_tlc_slow = (60, 12) if ctx.quick else (400, 100)
     hs_tlc = histories_from_tlc(ctx, n_tlc_fast, 14)
     hs_rand = sg.histories(ctx.rng, n_fast, 16)
+    hs_ow = sg.overwrite_histories(ctx.rng, 48 if ctx.quick else 500)
     plan = []
     for c in sd.CONFIGS:
         if c in sd.SLOW:
-            plan.append((c, hs_rand[:n_slow] + hs_tlc[:n_tlc_slow]))
+            plan.append((c, hs_rand[:n_slow] + hs_tlc[:n_tlc_slow] + hs_ow[: len(hs_ow) // 3]))
         else:
-            plan.append((c, hs_rand + hs_tlc))
+            plan.append((c, hs_rand + hs_tlc + hs_ow))
         plan.append((c, [{"hid": "K6-nan-template-value", "ops": K6_OPS}]))
     traces = execute(plan)
     for i, t in enumerate(traces):
